@@ -175,7 +175,7 @@ def _tuplify(x):
 def minimise(module, v, budget_s=20):
     """ddmin-lite on BFS traces: drop single actions while the same signature
     still fails."""
-    if "trace" not in v or "spec_key" not in v:
+    if "trace" not in v or "spec_key" not in v or os.environ.get("VERIF_NOMIN"):
         return v
     spec = module.make_spec(_tuplify(v["spec_key"]))
     want = sig_hash(v["sig"])
